@@ -31,6 +31,10 @@ func (x *Exec) RegistryRun(steps int) {
 	x.w = ecs.NewWorld(x.Cfg.Caps...)
 	w := x.w
 	max := MaskTotalBits
+	limit := max + 6
+	if x.Cfg.RegMax > 0 && x.Cfg.RegMax < limit {
+		limit = x.Cfg.RegMax // stay within what every build configuration supports (C20)
+	}
 	x.emit(LogReset{K: "reset", Seq: x.seq, Rel: []string{}, Cfg: x.Cfg, Note: fmt.Sprint("registry max=", max)})
 	var lockQ *ecs.Query0
 	count := func() int { return len(ecs.ComponentIDs(w)) }
@@ -97,7 +101,7 @@ func (x *Exec) RegistryRun(steps int) {
 		em(r)
 	}
 	// 1. fill the registry, with repeats and a few attempts on a locked world
-	order := x.rng.Perm(max + 6)
+	order := x.rng.Perm(limit)
 	for i, t := range order {
 		if i%17 == 5 {
 			q := ecs.NewFilter0(w).Query()
